@@ -347,8 +347,12 @@ pub fn run(args: &Args) {
                     let c1 = ox + rng.range(1, W);
                     let r1 = oy + rng.range(1, H);
                     let rc = Rect { c1, r1, c2: rng.range(c1, c1 + 4), r2: rng.range(r1, r1 + 4) };
-                    let dr = rng.irange(-4, 4) as i32;
-                    let dc = rng.irange(-4, 4) as i32;
+                    // half of the moves/copies overlap their own source (translation smaller than the rectangle)
+                    let (dr, dc) = if rng.chance(1, 2) {
+                        (rng.irange(-((rc.r2 - rc.r1) as i64), (rc.r2 - rc.r1) as i64) as i32, rng.irange(-((rc.c2 - rc.c1) as i64), (rc.c2 - rc.c1) as i64) as i32)
+                    } else {
+                        (rng.irange(-4, 4) as i32, rng.irange(-4, 4) as i32)
+                    };
                     if (rc.c1 as i64 + dc as i64) < 1 || (rc.r1 as i64 + dr as i64) < 1 || rc.c2 as i64 + dc as i64 > 16384 || rc.r2 as i64 + dr as i64 > 1_048_576 || rc.c2 > 16384 || rc.r2 > 1_048_576 {
                         continue 'hist;
                     }
